@@ -77,6 +77,9 @@ Proof. rewrite !strip_eq. exact (strip_pad r1 r2). Qed.
 Print Assumptions C01_release_zero_padded.
 
 (* non-vacuity: two accepted spellings of equal versions, and a strict chain  1.0.dev1 < 1.0a1 < 1.0 < 1.0+a < 1.0.post0 *)
-Example C01_nonvacuous :
-  exists x y, Version [32;118;49;46;48;46;48;45;82;67;46;49] = Some x /\ Version [49;99;49] = Some y /\ vop Eq_ x y = Some true /\ pep440_cmp x y = Eq.
-Proof. vm_compute. do 2 eexists. repeat split. Qed.
+Definition nonvac_check : bool :=
+  match Version [32;118;49;46;48;46;48;45;82;67;46;49], Version [49;99;49] with
+  | Some x, Some y => match vop Eq_ x y, pep440_cmp x y with Some true, Eq => true | _, _ => false end
+  | _, _ => false end.
+Example C01_nonvacuous : nonvac_check = true.
+Proof. vm_compute. reflexivity. Qed.
